@@ -657,7 +657,14 @@ an<Translation> TableTranslator::MakeSentence(const string& input,
         if (!iter.exhausted()) {
           vertices.insert(end_pos);
           if (start_pos == 0 && max_homographs_ - homographs.size() > 1) {
-            DictEntryIterator iter_copy = iter;
+            // a copy of iter would share the cursors of its chunks and
+            // advance them; look the words up again instead.
+            DictEntryIterator iter_copy;
+            dict_->LookupWords(&iter_copy, active_input.substr(0, m.length),
+                               false);
+            if (filter_by_charset) {
+              iter_copy.AddFilter(CharsetFilter::FilterDictEntry);
+            }
             collect_entries(homographs, iter_copy, max_homographs_);
           } else {
             collect_entries(homographs, iter, max_homographs_);
